@@ -373,12 +373,34 @@ func init() {
 		Probes: []string{"real_cli_runs"},
 		Assume: []string{"simrt.Order yields only iteration orders the Go specification permits", "real Go map iteration is a subset of the simulated orders (checked by the uninstrumented-CLI runs)"},
 	})
+	c05batches := func(ctx *Ctx) int { return fixedCases(ctx, 16, 400) }
+	genB := genParsers("C05", false)
+	genA := genAutoCase(true, 4, 10)
+	execB := execParsers("C05")
 	Register(&Checker{
-		ID: "C05", Level: "exploration", Engine: "A",
-		Rule: "case = (grammar, layout, K map-order schedules); for every run whose table yaccgo packs, the documented lookup (offset+symbol, bounds, check vector, default action / default goto) is evaluated for ALL (state, symbol) cells and compared with the dense table of the same run. distinct_nontrivial = distinct packings (hash of the five packed vectors).",
-		NumCases: func(ctx *Ctx) int { return autoCases(ctx, 5000, 40000) },
-		Gen:      genAutoCase(true, 4, 10), Exec: execC05a,
-		Probes: []string{"probe_default_is_reduce", "probe_default_is_error", "probe_negative_offset", "packed_runs"},
-		Assume: []string{"the lookup mirrored here is the one the generated Action() performs (cross-checked through generated code by the engine-B part)"},
+		ID: "C05", Level: "exploration", Engine: "A+B",
+		Rule: "two kinds of cases. (a) (grammar, layout, K map-order schedules): for every run whose table yaccgo packs, the documented lookup (offset+symbol, bounds, check vector, default action / default goto) is evaluated for ALL (state, symbol) cells incl. column 0 (unknown tokens) and compared with the dense table of the same run. (b) batches of grammars compiled in the four Go variants: the full matrix is read through each variant's GENERATED Action() and compared with the dense table of the same run, and packed and -u parsers must give the same verdict, reductions, tokens requested and value on every input of the C01 input set. distinct_nontrivial = distinct packings (hash of the five packed vectors) + distinct grammars compiled.",
+		NumCases: func(ctx *Ctx) int { return c05batches(ctx) + autoCases(ctx, 5000, 40000) },
+		Gen: func(ctx *Ctx, i int) *Input {
+			if nb := c05batches(ctx); i < nb {
+				in := genB(ctx, i)
+				in.Variants = wl.GoVariants
+				return in
+			} else {
+				in := genA(ctx, i-nb)
+				in.Index = i
+				return in
+			}
+		},
+		Exec: func(ctx *Ctx, in *Input) *Result {
+			if len(in.Specs) > 0 {
+				return execB(ctx, in)
+			}
+			return execC05a(ctx, in)
+		},
+		Probes: []string{"probe_default_is_reduce", "probe_default_is_error", "probe_negative_offset", "packed_runs", "matrices_compared", "pairs_compared"},
+		Assume: []string{"reference models as in C01 for the input classification", "simrt.Order yields only iteration orders the Go specification permits"},
+		Real:   []string{"yaccgo generator (instrumented copy, in-process)", "go build of generated parsers", "generated Action() of all four Go variants"},
+		Stubs:  []string{"map-iteration order shim", "token source"},
 	})
 }
